@@ -231,6 +231,28 @@ def _is_effect(ev, path, p, mod) -> bool:
     return False
 
 
+def _computed_registry(v, sn):
+    """`getattr(<self>, <name built at run time>, ..)` whose name pattern (constant parts of an f-string / `"_" + x`) fits one of the
+    registries: that registry's name (the first that fits), else None."""
+    if not (isinstance(v, ast.Call) and isinstance(v.func, ast.Name) and v.func.id == "getattr" and len(v.args) >= 2
+            and isinstance(v.args[0], ast.Name) and v.args[0].id == sn):
+        return None
+    nm = v.args[1]
+    if isinstance(nm, ast.JoinedStr) and any(isinstance(x, ast.FormattedValue) for x in nm.values):
+        pre = nm.values[0].value if isinstance(nm.values[0], ast.Constant) else ""
+        suf = nm.values[-1].value if isinstance(nm.values[-1], ast.Constant) and len(nm.values) > 1 else ""
+    elif isinstance(nm, ast.BinOp) and isinstance(nm.op, ast.Add) and isinstance(nm.left, ast.Constant) and isinstance(nm.left.value, str):
+        pre, suf = nm.left.value, ""
+    else:
+        return None
+    if not pre.startswith("_"):
+        return None
+    for r in sorted(REGISTRIES):
+        if r.startswith(pre) and r.endswith(suf) and len(r) >= len(pre) + len(suf):
+            return r
+    return None
+
+
 def rule_own(ctx, rule_id="C06.OWN", prop="C06") -> RuleResult:
     res = RuleResult(
         rule_id,
@@ -255,6 +277,13 @@ def rule_own(ctx, rule_id="C06.OWN", prop="C06") -> RuleResult:
                     regs = [e for e in it.elts if isinstance(e, ast.Attribute) and e.attr in REGISTRIES]
                     if regs:
                         aliases[tgt.id] = regs[0]
+        # a registry reached by a COMPUTED name: `registry = getattr(self, f"_{kind.lower()}", None)` in a Workspace method stands
+        # for every registry the built name can denote (round 5, C06-r52: `del registry[child.uid]` on such a local)
+        if in_ws and fn.self_name:
+            for k, v in single_assignments(fn.node).items():
+                r_ = _computed_registry(v, fn.self_name)
+                if r_ is not None:
+                    aliases[k] = ast.Attribute(value=ast.Name(id=fn.self_name, ctx=ast.Load()), attr=r_, ctx=ast.Load())
         for n in ast.walk(fn.node):
             # re-binding
             if isinstance(n, ast.Attribute) and n.attr in REGISTRIES and isinstance(n.ctx, ast.Store) and isinstance(n.value, ast.Name):
